@@ -52,9 +52,12 @@ func PlayMulti(beh M, rng *rand.Rand, proj *Projection) ([][]M, error) {
 	next := make([]int, nc)
 	nid := 0
 	rowTypes := []int{23, 25, 16, 701, 17, 20}
+	// the clients connect in a burst: every connection is queued at the listener before the first one is waited for
 	for c := 0; c < nc; c++ {
 		conns[c] = x.Dial()
 		czs[c] = &Concretiser{X: x, Rng: rng}
+	}
+	for c := 0; c < nc; c++ {
 		conns[c].WaitQuiet(WaitTimeout) //nolint
 	}
 	actor := func(c int) string { return fmt.Sprintf("c%d", c+1) }
